@@ -1068,7 +1068,46 @@ pub fn c09(seed: u64, budget: u64) -> FOut {
 /// C13: timer epochs with an exactly-once runtime
 pub fn c13(seed: u64, budget: u64) -> FOut {
     let mut out = FOut::default();
-    out.rule = "histories (300 calls) on the real crate with an exactly-once timer runtime: every timer delivered comes from the pending set (earliest deadline first - ties in the order of Timer's own Ord, the clock being exact or coarse (deadlines rounded up to a tick of 1 or 3 probe periods) - in 'ordered' histories, random order otherwise), interleaved with datagrams and API calls that flip connection state / identity and with set_config; all 8 combinations of periodic tasks. After every call: connected => exactly one pending probe timer and exactly one pending timer per enabled periodic task carrying the current token (at most one when the task is currently disabled); not connected => no pending token-carrying timer with the current token; a delivered timer with a stale token has no effect; ordered delivery never errors; any order yields Ok or IncompleteProbeCycle. distinct = histories with at least 3 connection-epoch changes".into();
+    out.rule = "histories (300 calls) on the real crate with an exactly-once timer runtime: every timer delivered comes from the pending set (earliest deadline first - ties in the order of Timer's own Ord, the clock being exact or coarse (deadlines rounded up to a tick of 1 or 3 probe periods) - in 'ordered' histories, random order otherwise), interleaved with datagrams and API calls that flip connection state / identity and with set_config; all 8 combinations of periodic tasks. After every call: connected => exactly one pending probe timer and exactly one pending timer per enabled periodic task carrying the current token (at most one when the task is currently disabled); not connected => no pending token-carrying timer with the current token; a delivered timer with a stale token has no effect; ordered delivery never errors; any order yields Ok or IncompleteProbeCycle; plus one long-lived instance through 300 epochs (more than the u8 token has values): the timers of the epoch that just ended are ignored in every epoch. distinct = histories with at least 3 connection-epoch changes".into();
+    // long-lived instance: 300 connection epochs in a row (more than the 256 values of the u8 token).
+    // Every round: become active (timers of the epoch are submitted), change identity (an epoch change by
+    // definition, whatever the token does), then deliver every timer of the epoch that just ended: each must
+    // be ignored - Ok, no effect, no state change.
+    {
+        let mut cfg = big_cfg();
+        cfg.periodic_announce = Some((5000 * MS, 2));
+        cfg.periodic_gossip = Some((300 * MS, 2));
+        let peer = VId::new(2, 0, 0, 0);
+        let mut inst = Inst::new(VId { a: 9, g: 1, k: 2, pad: 0 }, &cfg, seed ^ 0xE90C, 0, 255);
+        let mut carried: Vec<MTimer> = vec![];
+        let mut hit: Option<(String, J)> = None;
+        'rounds: for round in 0..300u32 {
+            let mut of_epoch: Vec<MTimer> = std::mem::take(&mut carried);
+            let (effs, _) = run_real(&mut inst.foca, &Input::ApplyMany(vec![MMember { id: peer, inc: round as u16, state: 0 }], false));
+            of_epoch.extend(effs.iter().filter_map(|e| if let Eff::Submit(t, _) = e { Some(t.clone()) } else { None }));
+            let cur = inst.snapshot().identity;
+            let next = VId { a: 9, g: 1, k: 2, pad: cur.pad.wrapping_add(1) };
+            let (effs, o) = run_real(&mut inst.foca, &Input::ChangeIdentity(next));
+            if !matches!(o, Outcome::Done) {
+                break;
+            }
+            // what the new epoch submitted belongs to the next round
+            carried.extend(effs.iter().filter_map(|e| if let Eff::Submit(t, _) = e { Some(t.clone()) } else { None }));
+            for t in of_epoch.into_iter().filter(|t| t.token().is_some()) {
+                let pre = inst.snapshot();
+                let (effs, o) = run_real(&mut inst.foca, &Input::Timer(t.clone()));
+                let post = inst.snapshot();
+                if !matches!(o, Outcome::Done) || !effs.is_empty() || post != pre {
+                    hit = Some(("C13:stale-timer-has-effect".into(), J::s(format!("epoch {round} of a long-lived instance (one identity change per epoch): {t:?} of the epoch that ended -> {o:?}, effects {effs:?}, token now {}", pre.token))));
+                    break 'rounds;
+                }
+            }
+            out.runs += 1;
+        }
+        if let Some((s, d)) = hit {
+            out.hit(&s, d);
+        }
+    }
     for h in 0..budget {
         let hs = seed.wrapping_mul(50021).wrapping_add(h);
         let mut g = G::new(hs);
@@ -2172,6 +2211,41 @@ pub fn c16(seed: u64, budget: u64) -> FOut {
             } else if sent.iter().any(|s| !s.is_empty()) || post.customs != pre.customs {
                 out.hit("C16:item-not-framed-whole", J::s(format!("{row}; custom sections sent {sent:?}, backlog before {:?} after {:?}", pre.customs, post.customs)));
             }
+        }
+    }
+    // items around the u16 frame limit with a packet size that would hold them: an item add_broadcast
+    // accepts must reach the peer whole (the frame prefix is a u16), one it refuses must leave no trace
+    for l in [65535usize, 65536, 65537, 70000] {
+        let own = VId::new(9, 1, 0, 0);
+        let peer = VId::new(2, 0, 0, 0);
+        let mut cfg = big_cfg();
+        cfg.max_packet_size = 80000;
+        let mut a = Inst::new(own, &cfg, seed ^ 0xB16, 0, 255);
+        run_real(&mut a.foca, &Input::ApplyMany(vec![MMember { id: peer, inc: 0, state: 0 }], false));
+        let item: Vec<u8> = (0..l).map(|i| if i == 0 { 7 } else { (i % 251) as u8 }).collect();
+        let pre = a.snapshot();
+        let (_, o1) = run_real(&mut a.foca, &Input::AddBroadcast(item.clone()));
+        out.runs += 1;
+        let row = format!("item of {l} bytes, max_packet_size 80000: add_broadcast -> {o1:?}");
+        if matches!(o1, Outcome::Panicked(_)) || a.poisoned {
+            out.hit("C16:item-not-framed-whole", J::s(format!("{row} (panic)")));
+            continue;
+        }
+        if !matches!(o1, Outcome::DoneBool(true)) {
+            if a.snapshot().customs != pre.customs {
+                out.hit("C16:item-not-framed-whole", J::s(format!("{row}: refused but the backlog changed")));
+            }
+            continue;
+        }
+        let (effs, o) = run_real(&mut a.foca, &Input::Broadcast);
+        if matches!(o, Outcome::Panicked(_)) {
+            out.hit("C16:item-not-framed-whole", J::s(format!("{row}, accepted; broadcast() -> {o:?} (panic)")));
+            continue;
+        }
+        let sent: Vec<Vec<Vec<u8>>> = effs.iter().filter_map(|e| if let Eff::Send(_, b) = e { split_datagram(b).map(|x| x.2) } else { None }).collect();
+        if sent != vec![vec![item.clone()]] {
+            let lens: Vec<Vec<usize>> = sent.iter().map(|s| s.iter().map(|i| i.len()).collect()).collect();
+            out.hit("C16:item-not-framed-whole", J::s(format!("{row}, accepted; broadcast() -> {o:?}; lengths of the items framed on the wire: {lens:?}")));
         }
     }
     for h in 0..budget {
